@@ -99,6 +99,11 @@ LABELLED = [
     ("OverlappingFieldsCanBeMerged", "{ echo(f: {tags: [\"a\", \"b\"]}) echo(f: {tags: [\"b\", \"a\"]}) }"),
     ("OverlappingFieldsCanBeMerged", "{ echo(f: {sub: {min: 1}}) echo(f: {sub: {min: 2}}) }"),
     ("OverlappingFieldsCanBeMerged", "{ echo(id: \"1\") echo(id: 1) }"),
+    # the meta fields have a response shape like any other field (String! for __typename), also below a union (hunt H3/9)
+    ("OverlappingFieldsCanBeMerged", "{ pet { ... on Dog { x: __typename } ... on Cat { x: lives } } }"),
+    ("OverlappingFieldsCanBeMerged", "{ named { ... on Dog { x: __typename } ... on Cat { x: name } } }"),
+    ("OverlappingFieldsCanBeMerged", "{ pet { ... on Cat { x: __typename } ... on Dog { x: owner { name } } } }"),
+    ("OverlappingFieldsCanBeMerged", "{ pet { x: __typename ... on Dog { x: name } } }"),
 ]
 # valid documents that exercise order-dependent machinery
 VALID_TRICKY = [
@@ -108,6 +113,7 @@ VALID_TRICKY = [
     "subscription { __x: tick }",
     "subscription { ...F } fragment F on Subscription { __typename }",
     "{ __me: me { __n: name __typename } }",
+    "{ pet { ... on Dog { x: __typename } ... on Cat { x: __typename } } named { __typename ... on Dog { __typename } } }",
     "mutation { __a: a(n: 1) }",
     "query A($x: Int) { ...L1 } fragment L3 on Query { me { friends(first: $x) { name } } } fragment L2 on Query { ...L3 } fragment L1 on Query { ...L2 }",
     "query A($x: Int) { ...L1 } fragment L1 on Query { ...L2 } fragment L2 on Query { ...L3 } fragment L3 on Query { me { friends(first: $x) { name } } }",
